@@ -10,7 +10,7 @@
               class identity through children / get_elements / xpath / parent / clone / get_element, arguments stored
               through hand-written properties or other code (kinds StoredCond, NonProp, Unrecognised of the table). *)
 From Coq Require Import String List Bool. Import ListNotations. Open Scope string_scope.
-Require Import Registry Registryproof Attr Attrproof Gen_Registry Gen_Ctors C12defs C12tab C12lift.
+Require Import Registry Registryproof Attr Attrproof RegistrySpec Gen_Registry Gen_Ctors C12defs C12tab C12lift.
 
 (* ------------------------------------------------------------------ (A) dispatch, for all registration sequences *)
 
@@ -60,6 +60,18 @@ Print Assumptions C12_unregistered_tags_give_Element.
 Theorem C12_every_class_reachable : forall ct, In ct class_tags -> reachable ct = true.
 Proof. exact all_reachable. Qed.
 Print Assumptions C12_every_class_reachable.
+
+(* the LIVE registry against knowledge that does not come from the registration calls themselves:
+   the hand-kept reference RegistrySpec.v (bound: 110 tags) and the classes that declare a _tag, found by walking the class
+   tree (bound: tagged_classes) -- a registration dropped from the sources (which shrinks the recorded calls AND the dict
+   together, invisible to C12_model_registry_is_live) fails both, with the tag / the class as the concrete input *)
+Theorem C12_registry_matches_reference : forall x, In x registry_reference -> reference_ok x = true.
+Proof. exact registry_matches_reference. Qed.
+Print Assumptions C12_registry_matches_reference.
+
+Theorem C12_every_tagged_class_is_dispatched : forall x, In x tagged_classes -> tagged_ok x = true.
+Proof. exact every_tagged_class_dispatched. Qed.
+Print Assumptions C12_every_tagged_class_is_dispatched.
 
 (* ------------------------------------------------------------------ (B') access paths in the model
    children / parent / root / anything an XPath, get_elements, get_element, typed finder or traverse returns / clone:
